@@ -292,6 +292,7 @@ Lemma start_inv : forall s id k f s' os,
 Proof.
   intros s id k f s' os I H. cbn in H.
   destruct (get id (calls s)) eqn:G; [discriminate|].
+  destruct (id <? 0) eqn:E0; [discriminate|].
   destruct (negb (f_st f =? 0) && negb (kind_eqb k KCtl)) eqn:E1; [discriminate|].
   destruct ((f_st f =? 0) && kind_eqb k KCtl) eqn:E2; [discriminate|].
   inversion H; subst; clear H.
